@@ -67,7 +67,7 @@ for pid, tech, text in [
     CLAIMS[pid] = dict(note=SOCK_NOTE, tech=tech, text=text)
 
 CLAIMS["C16"] = dict(
-    note=COMMON_NOTE + "Model: coq/Model/Apps.v (sim::http_server as a program over the socket model: constructor, on_accept, read, on_read/http_decide, on_write, close_connection, stop; asio::async_write as the composed write of Sim.v; handlers registered by the scripts are the three kinds fixed/content/redirect plus stalling paths). PARTIAL: the framing theorem is about the connection automaton feed/serve built from http_decide, which on_read executes (theorem C16_on_read_follows_the_decision); that the socket layer hands the server the client's byte stream in order is C05's theorem and, end to end, the correspondence and the byte-stream oracle. std::stoll is modelled for blanks, sign and digits; send_response takes an int (sizes below 2^31 assumed).",
+    note=COMMON_NOTE + "Model: coq/Model/Apps.v (sim::http_server as a program over the socket model: constructor, on_accept, read, on_read/http_decide, on_write, close_connection, stop; asio::async_write as the composed write of Sim.v; handlers registered by the scripts are the three kinds fixed/content/redirect plus stalling paths). PARTIAL: the framing theorem is about the connection automaton feed/serve built from http_decide, which on_read executes (theorem C16_on_read_follows_the_decision); that the socket layer hands the server the client's byte stream in order is C05's receiver theorem, composed with the framing theorem in coq/Proofs/ComposeProofs.v (C16_server_answers_a_prefix_of_the_client_stream, C16_one_client_write_end_to_end: any arrival order/duplication of the client's segments, any read sizes); the route in between (queues, NAT) is joined by hypothesis and checked end to end by the correspondence and the byte-stream oracle. std::stoll is modelled for blanks, sign and digits; send_response takes an int (sizes below 2^31 assumed).",
     tech="Coq proof (prefix-stability of the parser decision, induction over the list of reads: responses independent of segmentation; content-length = body; keep-alive/close/stall/malformed policy; stop frees the port) + differential execution of model and real sim::http_server on generated client byte streams cut at random points + independent response-stream oracle",
     text="Theorems in coq/Properties/Properties_C16.v for every set of handlers, every byte stream and every way of cutting it into reads: the list of responses and the final connection state equal those of the whole stream; one response per request in order, continuing iff keep-alive and no 'Connection: close'; stalling paths are silent, malformed input closes; content-length equals the body for fixed, whole-content and ranged answers; errors/EOF close that connection; after stop() the endpoint is out of the registry and a connect is refused.")
 
